@@ -595,11 +595,19 @@ fn module_extremes_space() -> Space {
 fn bitflip_space() -> Space {
     use vh::procgen::{two_register_bitflip_model, ACCESS_INSTRS};
     let fills: [Option<u64>; 5] = [None, Some(0x0000_0100_0001_0010), Some(0x1_0018), Some(0), Some(0xe5e5_e5e5_e5e5_e5e5)];
-    let radices = [fills.len() as u64, ACCESS_INSTRS.len() as u64, 4];
+    // last factor: the memory map (the model's one rw page; one mapping over the WHOLE address space without / with
+    // permissions; the same as a memory-info region of the largest size)
+    let radices = [fills.len() as u64, ACCESS_INSTRS.len() as u64, 4, 4];
     let n = product(&radices);
     let gen = move |idx: u64| -> (Model, Value) {
         let d = unrank(idx, &radices);
         let mut m = two_register_bitflip_model();
+        match d[3] {
+            0 => {}
+            1 => m.maps = MapsM::Linux(vec![(0, u64::MAX, "")]),
+            2 => m.maps = MapsM::Linux(vec![(0, u64::MAX, "rw")]),
+            _ => m.maps = MapsM::Info(vec![(0, u64::MAX, 0x01)]),
+        }
         m.gpr_fill = fills[d[0] as usize];
         let mut code = ACCESS_INSTRS[d[1] as usize].1.to_vec();
         code.resize(16, 0x90);
@@ -624,7 +632,7 @@ fn bitflip_space() -> Space {
                 (x.code, x.flags) = (1, 1);
             }
         }
-        let par = json!({"class": "bit-flip-analysis", "registers": fills[d[0] as usize].map(|v| format!("{v:#x}")), "instruction": ACCESS_INSTRS[d[1] as usize].0, "exception": (["linux SIGSEGV", "windows AV read", "windows AV write", "mac EXC_BAD_ACCESS"][d[2] as usize])});
+        let par = json!({"class": "bit-flip-analysis", "registers": fills[d[0] as usize].map(|v| format!("{v:#x}")), "instruction": ACCESS_INSTRS[d[1] as usize].0, "exception": (["linux SIGSEGV", "windows AV read", "windows AV write", "mac EXC_BAD_ACCESS"][d[2] as usize]), "memory_map": (["one rw page", "linux maps 0-ffffffffffffffff ---", "linux maps 0-ffffffffffffffff rw-", "memory info 0 + 2^64-1"][d[3] as usize])});
         (m, par)
     };
     let g2 = gen.clone();
